@@ -14,14 +14,20 @@ EXPLANATION = ("Structural rules over the typed HIR of the ID allocator and of e
                "returned; N5 who-may-touch: counter writes (through any alias of the place: `guard.0`, a destructured or re-borrowed guard) and set inserts only in the allocator - a store in the driver loop is accepted only when its arm's paths show it writes back the counter's own current value -, allocator called only "
                "from the operation issue point whose request tuple carries that value, set removals only in the driver "
                "loop, or in the issue point on paths where the removed value is the ID that very call reserved and its only hand-over to the driver is known to have failed before (the driver never learnt of it) - a `retain` is judged by the removals it amounts to: in the driver loop named IDs only, anywhere else none at all, a predicate about an ID's magnitude being decided against the allocator's own invariant (every member is in 1..=i32::MAX; used only when N2 / N4 / N8 and the other N5 obligations establish it on the analysed tree) -; N6 on every enumerated path of a select! arm a release comes with the un-routing of the same ID (or is the Abandon "
-               "request's own, never-answered ID). Not decided: the arithmetic of 2^31 wrap-around as a runtime fact "
+               "request's own, never-answered ID); N10 the release an expired operation asks for names the ID allocated for that very operation (C12 O1). Not decided: the arithmetic of 2^31 wrap-around as a runtime fact "
                "beyond this shape; scheduler interleavings (the single Mutex critical section is the argument).")
 TRUSTED = ['std::sync::Mutex mutual exclusion', 'std HashSet semantics']
 ASSUMPTIONS = ['RequestId = i32 (checked through the resolved field types)']
-SHARED = [('C01', ('R5.', 'R7.'), 'N7.reservation-kept'), ('C02', ('S13.',), 'N9.id-on-the-wire')]      # a frame nobody waits for must not release an ID; the allocated ID is the one put on the wire
+SHARED = [('C01', ('R5.', 'R7.'), 'N7.reservation-kept'), ('C02', ('S13.',), 'N9.id-on-the-wire'),      # a frame nobody waits for must not release an ID; the allocated ID is the one put on the wire
+          # "differs from the ID of every other operation on the same connection still outstanding": an ID is given up only by the
+          # operation that owns it.  The one release a handle asks the driver for is the timeout scrub of the issue point; if the ID
+          # it names is not the one allocated for this very call (a stale `last_id`: the handle's previous operation, which on a
+          # stream's handle is the running Search), another, still outstanding operation's ID leaves the in-use set and is handed
+          # out a second time when the counter next comes by (C12 O1.scrub-own-id)
+          ('C12', ('O1.scrub-own-id',), 'N10.release-own-id-only')]
 UNDECIDED = ['runtime wrap-around over 2^31 allocations (decided only as the allocator shape)']
 
-def check_step(ctx, A, root, V, o, CNT, carried, sig, MAX):
+def check_step(ctx, A, root, V, o, CNT, carried, sig, MAX, entries=()):
     prev = None
     if V == ('lit', 1):
         at = [a for a, t in o.st.pc if t and a[0] == 'bin' and a[1] in ('Eq', 'Ge') and a[3] == ('lit', MAX)]
@@ -35,10 +41,24 @@ def check_step(ctx, A, root, V, o, CNT, carried, sig, MAX):
     else:
         ctx.fail('N2.step', A.path, loc(root), 'the candidate value %s is neither 1 nor the previous candidate plus 1' % absx.fmt(V)[:60])
     if prev is not None:
+        # Where the search starts.  The counter is the one SHARED by every handle of the connection: component 0 of the tuple behind
+        # the mutex-guarded ID table (CNT is read through the guard of the allocator's single lock, N1).  A candidate that is the
+        # loop-carried variable is followed back to the value that variable ENTERS the search loop with (the 'loop-carried' event
+        # keeps it): that value has to be the shared counter itself, or a step of it that is judged as a definition of its own
+        # (`entries`: the step taken before the probe loop).  A per-handle field, a constant, the larger of the two ... start the
+        # search somewhere else: the handle is then given the lowest free ID above *its* mark - an ID just released -, not the
+        # next one the connection has not used yet.
         all_carried = [e for e in o.st.ev if e[0] == 'loop-carried'] or carried
-        from_counter = sem.strip_site(prev) == sem.strip_site(CNT) or \
-            (prev[0] == 'carried' and any(e[2] == prev for e in all_carried))
-        ctx.add('N2.init-from-counter', A.path + '|' + sig, loc(root), from_counter, 'the search does not start from the stored counter (guard.0)')
+        is_cnt = lambda t: sem.strip_site(t) == sem.strip_site(CNT)
+        start = [prev]
+        if prev[0] == 'carried':
+            start = [e[4] for e in all_carried if e[2] == prev]
+        bad = [t for t in start if not (is_cnt(t) or t in entries)]
+        ctx.add('N2.init-from-counter', A.path + '|' + sig, loc(root), bool(start) and not bad,
+                'the search for a free ID starts from %s, not from the counter shared by all handles of the connection through the mutex-guarded ID table '
+                '(%s, component 0 of the tuple behind the lock): allocation is not monotone over the connection - a handle whose own mark is behind (every '
+                'clone starts at 0, every Search runs on one) is given the lowest free ID, i.e. one that was just released, while the server may still '
+                'answer the operation that held it' % (absx.fmt(sem.strip_site(bad[0]))[:60] if bad else 'no visible value', absx.fmt(sem.strip_site(CNT))[:60]))
 
 def never_handed_over(f, C, path, h, n):
     """A release outside the driver loop cannot free an ID some in-flight operation still uses exactly when the driver never learnt
@@ -92,6 +112,13 @@ def run(ctx):
         if len(ls) != 1:
             n_lock_ok = False
     ctx.add('N1.single-lock', A.path, loc(root), n_lock_ok, 'the allocator must take the ID-table lock exactly once on every path (one critical section for read, probe and claim)')
+    # ... and the lock is the one of the connection's ID table (the Mutex around the (counter, in-use set) pair that every handle
+    # reaches through its Arc): what N2-N4 call "the counter" and "the set" are the components behind THIS guard
+    lock_nodes = {id(ls[0][3]): ls[0][3] for o in outs for ls in [sem.calls(o, is_lock)] if len(ls) == 1}
+    for ln in lock_nodes.values():
+        rt = hirq.strip_refs(ln['recv'].get('adj_ty') or ln['recv'].get('ty') or '') if ln.get('k') == 'MethodCall' else ''
+        ctx.add('N1.lock-is-the-id-table', A.path, loc(ln), rt in (anchors.T_IDTABLE, 'std::sync::poison::mutex::Mutex<%s>' % anchors.T_IDPAIR),
+                'the allocator\'s critical section is not under the Mutex of the connection\'s ID table (it locks a %s)' % (rt or '?')[:80])
     locks_in_loop = [n for n, c in walk(root) if n['k'] == 'MethodCall' and is_lock(callee_of(n) or '') and any(a['k'] in ('Loop', 'For', 'While') for a, _ in c)]
     ctx.add('N1.lock-outside-loop', A.path, loc(root), not locks_in_loop, 'the lock is taken inside a loop (released between probes)')
     for o in exits:
@@ -107,13 +134,19 @@ def run(ctx):
         # N2 the step function.  When the value at the exit is the loop-carried candidate itself (the step is taken before the
         # probe loop and at the end of its body), the step is checked where each value the candidate can carry was computed.
         carried = [e for e in o.st.ev if e[0] == 'loop-carried']
+        entries = ()
         if V[0] == 'carried':
-            defs = [(e[4], o) for e in carried if e[2] == V] + [(lo.st.env[V[1]], lo) for lo in outs if lo.kind == 'loop' and V[1] in lo.st.env]
+            # the values the candidate enters the probe loop with, on whichever path (the step taken before the loop forks on the
+            # wrap test: one path enters with 1, another with counter + 1): each is judged below as a definition, on the path that
+            # computed it; what the body then makes of the carried value is judged on the paths that go round again
+            enter = [(e[4], x) for x in outs for e in x.st.ev if e[0] == 'loop-carried' and e[1] == V[1]]
+            entries = tuple(Vd for Vd, _x in enter)
+            defs = enter + [(lo.st.env[V[1]], lo) for lo in outs if lo.kind == 'loop' and V[1] in lo.st.env]
             ctx.add('N2.step', A.path + '|defs', loc(root), len(defs) >= 2, 'the candidate carried around the probe loop has no visible definition')
         else:
             defs = [(V, o)]
         for Vd, od in defs:
-            check_step(ctx, A, root, Vd, od, CNT, carried, sig, MAX)
+            check_step(ctx, A, root, Vd, od, CNT, carried, sig, MAX, entries)
         # N3 left only when the candidate is free: the condition of the path that leaves the search must ENTAIL that the candidate
         # is not a member of the in-use set in the state in which it is claimed (setfacts: found not to be a member - `contains`,
         # `get`, the answer of the claiming `insert` itself - or the set found to have no member at all - `is_empty`, `len() == 0`).
